@@ -104,6 +104,13 @@ func allOfMembers(cfg gen.Config) []member {
 		wrap("referenced base also requires a sibling's property (listed first)", &fam.Spec{Kind: "object", AllOf: []*fam.Spec{ev,
 			obj(&fam.Prop{Label: "kind", Spec: str()}, &fam.Prop{Label: "x", Spec: &fam.Spec{Kind: "integer"}})}})
 	}
+	// a constraint-only branch given BY REFERENCE (a "mixin" definition that only lists required names): the generator may refuse it,
+	// but it must not report success with the branch's required names dropped
+	{
+		mixin := &fam.Spec{Kind: "any", ReqOnly: []string{"note"}, Ref: "$defs"}
+		out = append(out, member{name: "allOf: referenced required-only branch", cfg: cfg, mayFail: true, root: obj(&fam.Prop{Label: "c", Required: true, Spec: &fam.Spec{Kind: "object", AllOf: []*fam.Spec{
+			obj(&fam.Prop{Label: "note", Spec: str()}, &fam.Prop{Label: "id", Spec: &fam.Spec{Kind: "integer"}, Required: true}), mixin}}})})
+	}
 	// three and four branches
 	for n := 3; n <= 4; n++ {
 		var bs []*fam.Spec
@@ -169,7 +176,7 @@ func C11(c *core.Ctx) {
 	}
 	// branches given by reference into ANOTHER file: the merged struct is built by the referring file's generator from the other
 	// document's nodes, whose fragment-only references still mean their own document
-	ruleMultiSel(c, ruleSet("A-GENERR", "A-REQ", "A-REJ", "A-NOEXTRA", "A-MAP", "A-TYP"), 2, "an allOf branch in another file with a fragment-only reference", "allOf branch in two files")
+	ruleMultiSel(c, ruleSet("A-GENERR", "A-REQ", "A-REJ", "A-NOEXTRA", "A-MAP", "A-TYP"), 2, "an allOf branch in another file", "allOf branch in two files")
 	c.Floor("families", c.Counts["members"], 24, "family members")
 	a := engb.New(c.Prog)
 	emit(c, a.RefCacheScope())
